@@ -328,6 +328,9 @@ pub fn run(ctx: &mut Ctx) {
         1 => "\\PC{1,3}".prop_map(|s| s),
         1 => prop_oneof![Just("com"), Just("co.uk"), Just("ck"), Just("www.ck"), Just("xn--55qx5d.cn"), Just("公司.cn"), Just("kawasaki.jp"), Just("city.kawasaki.jp"), Just("*"), Just("!"), Just(" ")].prop_map(|s| s.to_string()),
         1 => (1usize..400).prop_map(|n| "abcdefghij.".repeat(n)),
+        // characters that other software treats as label separators (IDNA full stops) or that look like dots: for the
+        // suffix algorithm only U+002E separates labels, everything else is part of a label
+        2 => prop_oneof![Just("\u{3002}"), Just("\u{FF0E}"), Just("\u{FF61}"), Just("\u{2024}"), Just("\u{FE52}"), Just("\u{00B7}"), Just("a\u{3002}b"), Just("x\u{FF0E}")].prop_map(|s| s.to_string()),
         // numeric labels and whole address literals (they are names like any other for the suffix algorithm)
         1 => (0u16..300).prop_map(|n| n.to_string()),
         1 => any::<[u8; 4]>().prop_map(|b| format!("{}.{}.{}.{}", b[0], b[1], b[2], b[3])),
@@ -389,6 +392,17 @@ pub fn run(ctx: &mut Ctx) {
         ctx.class("literal/address-like");
         if let Err(e) = check_structural(s).and_then(|_| if s.split('.').any(|l| l.is_empty()) { Ok(()) } else { check_canonical(psl_ref, s).map(|_| ()) }) {
             ctx.violation("structural-fixed", json!({"string": s}), &e);
+        }
+    }
+    // IDNA full-stop variants in every position relative to a rule (they are not separators here)
+    for dot in ['\u{3002}', '\u{FF0E}', '\u{FF61}'] {
+        for tmpl in ["example{}com", "b{}a.co.uk", "z.b{}a.ck", "www{}ck", "a.b{}city.kobe.jp", "{}", "{}com", "com{}", "a{}", "x.y{}z"] {
+            let s = tmpl.replace("{}", &dot.to_string());
+            ctx.eval();
+            ctx.class("literal/dot-like characters");
+            if let Err(e) = check_structural(&s).and_then(|_| if s.split('.').any(|l| l.is_empty()) { Ok(()) } else { check_canonical(psl_ref, &s).map(|_| ()) }) {
+                ctx.violation("structural-fixed", json!({"string": s}), &e);
+            }
         }
     }
     // a few fixed adversarial strings
